@@ -3,6 +3,7 @@ package frame
 import (
 	"fmt"
 	"go/token"
+	"go/types"
 	"strings"
 
 	"golang.org/x/tools/go/ssa"
@@ -248,4 +249,169 @@ func rootGlobal(v ssa.Value) *ssa.Global {
 		}
 	}
 	return nil
+}
+
+
+// StoreFirst: in fn, a direct store to g dominates every other access of g (direct or
+// through callees): whatever value g had when fn was entered is never read.
+func StoreFirst(prog *load.Program, fn *ssa.Function, g *ssa.Global) (bool, string) {
+	a := &accessSummary{g: g, memo: map[*ssa.Function]bool{}, open: map[*ssa.Function]bool{}}
+	var touching []*ssa.BasicBlock
+	for _, b := range fn.Blocks {
+		for _, in := range b.Instrs {
+			if a.instrTouches(in) {
+				touching = append(touching, b)
+				break
+			}
+		}
+	}
+	if len(touching) == 0 {
+		return false, "the function does not touch " + g.Name()
+	}
+	var first *ssa.BasicBlock
+	for _, b := range touching {
+		all := true
+		for _, o := range touching {
+			if !b.Dominates(o) {
+				all = false
+			}
+		}
+		if all {
+			first = b
+		}
+	}
+	if first == nil {
+		return false, "no single block dominates every access of " + g.Name()
+	}
+	for _, in := range first.Instrs {
+		if s, _ := a.direct(in); s {
+			return true, "a store to " + g.Name() + " at " + prog.Pos(in.Pos()) + " dominates every other access in the function"
+		}
+		if a.instrTouches(in) {
+			// the first access may be a call to a function that itself stores first
+			if ci, ok := in.(ssa.CallInstruction); ok {
+				if callee := ci.Common().StaticCallee(); callee != nil && callee != fn && len(callee.Blocks) > 0 {
+					if ok2, why := StoreFirst(prog, callee, g); ok2 {
+						return true, "the first access is the call to " + fnKey(callee) + " (" + why + ")"
+					}
+				}
+			}
+			return false, fmt.Sprintf("%s is accessed (%s) before it is written", g.Name(), prog.Pos(in.Pos()))
+		}
+	}
+	return false, "no store found"
+}
+
+// PathTo finds a call path from the roots to target (debugging aid for failed obligations).
+func PathTo(prog *load.Program, roots []*ssa.Function, stop map[*ssa.Function]bool, extra map[*ssa.Function][]*ssa.Function, target *ssa.Function) string {
+	parent := map[*ssa.Function]*ssa.Function{}
+	seen := map[*ssa.Function]bool{}
+	var q []*ssa.Function
+	for _, r := range roots {
+		seen[r] = true
+		q = append(q, r)
+	}
+	impls := implIndex(prog)
+	for len(q) > 0 {
+		fn := q[0]
+		q = q[1:]
+		if fn == target {
+			var parts []string
+			for f := fn; f != nil; f = parent[f] {
+				parts = append([]string{fnKey(f)}, parts...)
+			}
+			return strings.Join(parts, " -> ")
+		}
+		if stop[fn] {
+			continue
+		}
+		var next []*ssa.Function
+		next = append(next, extra[fn]...)
+		if !inRepo(fn) {
+			continue
+		}
+		for _, b := range fn.Blocks {
+			for _, in := range b.Instrs {
+				switch x := in.(type) {
+				case *ssa.MakeClosure:
+					next = append(next, x.Fn.(*ssa.Function))
+				case *ssa.MakeInterface:
+					if !libraryInterface(x.Type()) {
+						continue
+					}
+					ms := prog.SSA.MethodSets.MethodSet(x.X.Type())
+					for i := 0; i < ms.Len(); i++ {
+						if m := prog.SSA.MethodValue(ms.At(i)); m != nil && inRepo(m) {
+							switch m.Name() {
+							case "String", "Error", "Less", "Len", "Swap", "MarshalJSON", "UnmarshalJSON", "Format", "GoString":
+								next = append(next, m)
+							}
+						}
+					}
+				case ssa.CallInstruction:
+					c := x.Common()
+					if c.IsInvoke() {
+						for _, m := range impls[c.Method.Name()] {
+							if types.Implements(m.recv, c.Value.Type().Underlying().(*types.Interface)) {
+								next = append(next, m.fn)
+							}
+						}
+					} else if f := c.StaticCallee(); f != nil {
+						next = append(next, f)
+					}
+				}
+				for _, op := range in.Operands(nil) {
+					if op != nil && *op != nil {
+						if f, ok := (*op).(*ssa.Function); ok {
+							next = append(next, f)
+						}
+					}
+				}
+			}
+		}
+		for _, n := range next {
+			if !seen[n] {
+				seen[n] = true
+				parent[n] = fn
+				q = append(q, n)
+			}
+		}
+	}
+	return ""
+}
+
+// GuardedState: every function that directly touches g and is reachable from the roots is
+// only reachable through one of the entry functions, each of which stores g before any
+// other access. So no value of g survives from one entry (one file) to the next.
+func GuardedState(prog *load.Program, roots []*ssa.Function, g *ssa.Global, entries []*ssa.Function, extra map[*ssa.Function][]*ssa.Function) Result {
+	res := Result{Name: "per-file/no-carried-state:" + fnKeyGlobal(g), Pos: ""}
+	var notes []string
+	stop := map[*ssa.Function]bool{}
+	for _, e := range entries {
+		ok, why := StoreFirst(prog, e, g)
+		if !ok {
+			res.Detail = fnKey(e) + ": " + why
+			return res
+		}
+		notes = append(notes, fnKey(e)+": "+why)
+		stop[e] = true
+	}
+	a := &accessSummary{g: g, memo: map[*ssa.Function]bool{}, open: map[*ssa.Function]bool{}}
+	outside := ReachableExcept(prog, roots, stop, extra)
+	for fn := range outside {
+		if stop[fn] || !inRepo(fn) {
+			continue
+		}
+		for _, b := range fn.Blocks {
+			for _, in := range b.Instrs {
+				if s, l := a.direct(in); s || l {
+					res.Detail = fmt.Sprintf("%s touches %s (%s) and is reachable from the per-file entry points without passing through a function that stores it first: %s", fnKey(fn), g.Name(), prog.Pos(in.Pos()), PathTo(prog, roots, stop, extra, fn))
+					return res
+				}
+			}
+		}
+	}
+	res.OK = true
+	res.Detail = strings.Join(notes, "; ")
+	return res
 }
